@@ -8,7 +8,7 @@ from __future__ import annotations
 import hashlib
 import itertools
 
-from .. import common, scripts, strat
+from .. import common, loaders, scripts, strat
 from ..common import enc_bools, enc_list
 
 RULE = ("minimize-around and minimize-balanced, min=1, repeat in {last, always}: every deterministic test (complete verdict trees) for n <= 4/5 "
@@ -279,7 +279,71 @@ def known_finding_cases(ctx):
     one(ctx, "minimize-balanced", dict(), f, lambda k, c: c in ok, total_fn=lambda c: c in ok, label="known-finding")
 
 
+CLI_CASES = {
+    # a declaration may only go once its later use is gone: removals depend on each other against the scan order
+    "decl-after-use": (b"var v = 1;\nvar unused;\nv += 1;\ncrash();\n",
+                       "lambda d: b'crash();' in d and ((b'v += 1' in d) <= (b'var v = 1' in d))"),
+    "chain": (b"c\nb\na\nd\n", "lambda d: b'a\\n' in d and (b'b\\n' in d or b'c\\n' not in d)"),
+    "bracketed": (b"f(\nx\n)\ny\nx\n", "lambda d: d.count(b'(') == d.count(b')') and (b'y' in d) >= (b'x' in d)"),
+}
+
+
+def cli_runs(ctx):
+    """the same fixpoint through the command line: `Lithium.main(argv)` with the repeat modes the property allows, with and
+    without the experimental move (option handling must not switch the repetition of the last round off)"""
+    import contextlib
+    import io
+    import os
+    import sys
+    from lithium.reducer import Lithium
+
+    d = loaders.scratch() / "c13-cli"
+    d.mkdir(exist_ok=True)
+    cwd = os.getcwd()
+    os.chdir(d)
+    try:
+        for tname, (data, src) in CLI_CASES.items():
+            mod = f"c13_{tname.replace('-', '_')}"
+            (d / f"{mod}.py").write_text("FN = " + src + "\ndef interesting(args, prefix):\n    return bool(FN(open(args[-1], 'rb').read()))\n")
+            fn = eval(src)  # pylint: disable=eval-used
+            for name in ("minimize-balanced",):
+                for move in ([], ["--with-experimental-move"]):
+                    for rep in ("last", "always"):
+                        for mx in (None, 1, 2):
+                            tc = d / "tc.txt"
+                            tc.write_bytes(data)
+                            sys.modules.pop(mod, None)
+                            argv = [f"--strategy={name}"] + move + [f"--repeat={rep}"] + ([f"--max={mx}"] if mx else []) + [f"{mod}.py", str(tc)]
+                            case = dict(cli=True, argv=argv[:-1], test=tname, data=common.enc_bytes(data))
+                            try:
+                                with contextlib.redirect_stdout(io.StringIO()), contextlib.redirect_stderr(io.StringIO()):
+                                    rc = Lithium().main(argv)
+                            except (Exception, SystemExit) as exc:  # pylint: disable=broad-except
+                                ctx.fail("cli-raises", f"main({argv[:-1]}) raised {type(exc).__name__}: {exc}", case)
+                                continue
+                            ctx.evaluations += 1
+                            ctx.bump("cli-runs")
+                            final = tc.read_bytes()
+                            lines = final.splitlines(keepends=True)
+                            if rc != 0 or not fn(final):
+                                ctx.fail("cli-result", f"main({argv[:-1]}) returned {rc} and left {final!r}", case)
+                                continue
+                            for i, l in enumerate(lines if len(lines) >= 2 else []):    # the property speaks of >= 2 remaining atoms
+                                if bal(l) != (0, 0, 0):
+                                    continue
+                                less = b"".join(lines[:i] + lines[i + 1:])
+                                if fn(less):
+                                    ctx.fail("not-a-fixpoint", f"main({argv[:-1]}) ended with {final!r}: deleting the balanced line {i} gives {less!r}, "
+                                             "which the test accepts", case)
+                                    break
+                            if final != data:
+                                ctx.nontriv("cli", tname, tuple(argv[:-2]))
+    finally:
+        os.chdir(cwd)
+
+
 def search(ctx):
+    cli_runs(ctx)
     move_runs(ctx, 60)
     trees(ctx, 4, 600, 30, do_model=False)
     families(ctx, 40, do_model=False)
@@ -295,6 +359,7 @@ def run(ctx) -> int:
     families(ctx, 60 if ctx.thorough else 20)
     repeats(ctx, 12000 if ctx.thorough else 1500)
     move_runs(ctx, 120 if ctx.thorough else 30)
+    cli_runs(ctx)
     return common.decide(ctx, proof, RULE, search=search,
                          assumptions=["the fixpoint clauses are checked by the monitor on the real code and tied to the Lean models of the two passes by "
                                       "proposal-by-proposal correspondence; the Lean theorems cover the passes' bookkeeping (see DESIGN.md §4 C13)"])
